@@ -26,8 +26,8 @@ func ruleC04(prog *Program, rep *Report) {
 	rulePadBound(prog, rep)
 	ruleFlatSeparator(prog, rep)
 	ruleGenTwins(prog, rep, 1, "pretty", "oj", "sen", "alt", "jp", "asm", "gen", "")
-	ruleRecvGuard(prog, rep, 4, "gen") // an empty generic array is written as [], not as null
-	ruleFloatNarrow(prog, rep, "pretty", "oj") // a float64 (or gen.Float) written through float32 loses digits, or becomes +Inf, which is not JSON
+	ruleRecvGuard(prog, rep, 4, "gen")               // an empty generic array is written as [], not as null
+	ruleFloatNarrow(prog, rep, "pretty", "oj")       // a float64 (or gen.Float) written through float32 loses digits, or becomes +Inf, which is not JSON
 	ruleTightAppendTwins(prog, rep, "oj")            // the four object emitters omit the same members
 	ruleBorrowedWrites(prog, rep)                    // a caller's Writer left in strict mode writes null for an empty array afterwards
 	ruleGlobalReturn(prog, rep, 5, "pretty", "oj")   // the layout nodes a builder hands out are filled in by its caller (key, members)
